@@ -1,6 +1,7 @@
 package main
 
 import (
+	_ "verifharness/cases/c06" // c15-hc-e2e: the end-to-end fixture (scripted backends, held probes) lives there
 	_ "verifharness/cases/c15"
 	"verifharness/internal/cli"
 )
